@@ -136,6 +136,20 @@ func (g *Gen) zeroInitStruct(st *BState, ref string, t types.Type) {
 	}
 }
 
+// constArray returns a term for the array that maps every index to the zero value of the sort.
+func (g *Gen) constArray(keySort, valSort, zero string) string {
+	switch valSort {
+	case "Int", "Bool":
+		return fmt.Sprintf("((as const (Array %s %s)) %s)", keySort, valSort, zero)
+	}
+	n := "zeroarr_" + mangle(keySort) + "_" + mangle(valSort)
+	if !g.declSet[n] {
+		g.declare(n, fmt.Sprintf("(Array %s %s)", keySort, valSort))
+		g.assert(fmt.Sprintf("(forall ((i %s)) (! (= (select %s i) %s) :pattern ((select %s i))))", keySort, n, zero, n))
+	}
+	return n
+}
+
 func (g *Gen) doAlloc(st *BState, in *ssa.Alloc) {
 	t := deref(in.Type())
 	n := g.valName(in)
@@ -150,7 +164,7 @@ func (g *Gen) doAlloc(st *BState, in *ssa.Alloc) {
 		r := g.elemRegion(u.Elem())
 		cur := g.heapGet(st.heap, r)
 		if sortOf(u.Elem()) != "Opaque" {
-			g.assume(st, fmt.Sprintf("(= (select %s %s) ((as const (Array Int %s)) %s))", cur, n, sortOf(u.Elem()), zeroOf(u.Elem())))
+			g.assume(st, fmt.Sprintf("(= (select %s %s) %s)", cur, n, g.constArray("Int", sortOf(u.Elem()), zeroOf(u.Elem()))))
 		}
 	default:
 		r := g.cellRegion(t)
@@ -209,7 +223,7 @@ func (g *Gen) doIndexAddr(st *BState, in *ssa.IndexAddr) {
 	case *types.Slice:
 		s := g.val(in.X)
 		g.safety(st, "S.idx", in.Pos(), fmt.Sprintf("(and (<= 0 %s) (< %s (s-len %s)))", idx, idx, s))
-		g.locs[in] = &Loc{Kind: "elem", Region: g.elemRegion(t.Elem()), Ref: fmt.Sprintf("(s-arr %s)", s), Idx: fmt.Sprintf("(+ (s-off %s) %s)", s, idx), Type: t.Elem(), Fresh: false}
+		g.locs[in] = &Loc{Kind: "elem", Region: g.elemRegion(t.Elem()), Ref: fmt.Sprintf("(s-arr %s)", s), Idx: fmt.Sprintf("(at %s %s)", s, idx), Type: t.Elem(), Fresh: false}
 	case *types.Pointer:
 		at, ok := t.Elem().Underlying().(*types.Array)
 		if !ok {
@@ -729,7 +743,7 @@ func (g *Gen) doMakeSlice(st *BState, in *ssa.MakeSlice) {
 	arr := g.freshRef(st, g.valName(in)+"_arr")
 	r := g.elemRegion(et)
 	if sortOf(et) != "Opaque" {
-		g.assume(st, fmt.Sprintf("(= (select %s %s) ((as const (Array Int %s)) %s))", g.heapGet(st.heap, r), arr, sortOf(et), zeroOf(et)))
+		g.assume(st, fmt.Sprintf("(= (select %s %s) %s)", g.heapGet(st.heap, r), arr, g.constArray("Int", sortOf(et), zeroOf(et))))
 	}
 	g.def(in, fmt.Sprintf("(mk-slice %s 0 %s %s)", arr, ln, cp))
 	g.allocs[in] = true
